@@ -209,6 +209,7 @@ def make_judge(name, line, tre, tim, var, fmt, dom, delta):
 
 ERR_BOUND_U = 64.0   # forward error bound per component proved on boxes, in units of u = 2**-p
 POINT_ULP = 16.0     # the property's hard bound, used at single points where the forward bound is not provable
+P_ULP = 16.0
 PLANE_BOUND_U = 256.0  # forward error bound proved over two-dimensional boxes (wider boxes, undecided region tests: looser)
 
 
@@ -497,6 +498,54 @@ def _analyse_plane(root, ctype, name, tier):
     return res
 
 
+# R1.5: boundary-value analysis of the region structure (rules/C01_probe.py)
+PROBED = ("absolute", "square", "sqrt", "atan", "atanh", "asin", "acos", "asinh", "acosh", "log", "log1p", "log2", "log10", "exp")
+PROBE_SLOPES = {
+    "quick": (0, 1, 2, 3, 4, 6, 8, 12, 16, 24, 40),
+    "thorough": tuple(range(0, 13)) + tuple(range(16, 65, 4)),
+}
+PROBE_SHIFTS = {"quick": (0,), "thorough": (-40, -20, -10, -3, -1, 0, 1, 3, 10, 20, 40)}
+PROBE_CHUNK = 12
+
+
+def probe_specs(tier):
+    specs = [("real axis y=+0", ("axis", "y", 0.0)), ("real axis y=-0", ("axis", "y", -0.0)),
+             ("imaginary axis x=+0", ("axis", "x", 0.0)), ("imaginary axis x=-0", ("axis", "x", -0.0))]
+    for k in PROBE_SLOPES[tier]:
+        for kk in sorted({k, -k}):
+            for sg in (1, -1):
+                specs.append((f"ray y={'-' if sg < 0 else ''}2**{kk}*x", ("ray", sg * 2.0 ** kk)))
+    for j in PROBE_SHIFTS[tier]:
+        for v in ("x", "y"):
+            for sg in (1.0, -1.0):
+                specs.append((f"line {v}={sg * 2.0 ** j:g}", ("axis", v, sg * 2.0 ** j)))
+    return specs
+
+
+def _probe_classify(name, spec, var, fmt, o, z):
+    """named input regions whose failures are reported once per (function, type) by R1.1"""
+    re, im = abs(float(np.real(z))), abs(float(np.imag(z)))
+    sm = float(fmt.smallest)
+    sq = float(fmt.ft(np.sqrt(np.float64(fmt.smallest))))
+    if name == "atanh" and re == 1.0 and im <= sq:
+        return "next to the pole, where the square of the offset underflows"
+    if name == "atan" and im == 1.0 and re <= sq:
+        return "next to the pole, where the square of the offset underflows"
+    if name == "log1p" and float(np.real(z)) == -1.0 and im <= sq:
+        return "next to the branch point -1, where the square of the imaginary part underflows"
+    if (0 < re < sm) or (0 < im < sm):
+        return "subnormal inputs"
+    return None
+
+
+def _analyse_probes(root, ctype, name, tier, chunk):
+    from rules import C01_probe as P
+
+    specs = probe_specs(tier)[chunk * PROBE_CHUNK:(chunk + 1) * PROBE_CHUNK]
+    oracle = P.ref_log1p if name == "log1p" else ORACLE[name]
+    return P.probe_lines(root, ctype, name, oracle, specs, _simp, _probe_classify, grid_cap=600 if tier == "quick" else 100000)
+
+
 def _known_keys():
     from sa.core import load_known
     return {(k["rule"], k["key"]) for k in load_known() if k.get("property") == "C01" and k.get("status") == "known"}
@@ -508,6 +557,7 @@ def run(repo, tier):
     r = Report("C01", tier, repo, level="other", design_ref="DESIGN.md §3/C01")
     r.rule("R1.1", "on the real axis, the imaginary axis and both diagonals, for every float of the component type: no spurious NaN/inf, correct sign and branch-cut side, relative error per component below the coarse bound", floor=100)
     r.rule("R1.2", f"forward error analysis on the same lines: the rounding-error bound of each component is at most {ERR_BOUND_U:.0f}u on every box (u = 2**-p) or, at single points where it is not provable, the exactly evaluated result is within {POINT_ULP:.0f} ULP of the reference (inputs inside the regions reported by R1.1 excepted)", floor=100)
+    r.rule("R1.5", f"boundary-value analysis of the region structure: along {len(probe_specs(tier))} lines (axes, rays y = +-2**k x, lines through +-2**j) the flips of every select guard are located by bisection on the IR evaluated at single points; at both floats next to every flip, in the middle of every piece and on a coarse grid the exactly evaluated result is within {P_ULP:.0f} ULP of the long-double reference (all 14 complex functions)", floor=20)
     r.rule("R1.3", f"forward error analysis over the whole plane: for all normal finite (x, y) - outside the stated neighbourhood of the branch points / the overflow band - the rounding-error bound of each component is at most {PLANE_BOUND_U:.0f}u, or the exactly evaluated point is within {POINT_ULP:.0f} ULP of the reference", floor=8)
     if np.finfo(LD).maxexp <= 1024:
         raise AnalysisError("numpy.longdouble is not an extended format on this machine; the reference ranges for complex128 would overflow")
@@ -519,12 +569,20 @@ def run(repo, tier):
              if tier == "thorough" or line not in RAYS or line in QUICK_RAYS]
     jobs = int(os.environ.get("VERIF_JOBS", "0") or 0) or min(len(tasks), os.cpu_count() or 1)
     ptasks = [(repo.root, ctype, name, tier) for ctype in ("complex64", "complex128") for name in PLANE if tier == "thorough" or name in PLANE_QUICK]
+    for name in PROBED:
+        if not repo.has(REL, name):
+            raise AnalysisError(f"anchor vanished: algorithms.{name}")
+    n_chunks = -(-len(probe_specs(tier)) // PROBE_CHUNK)
+    btasks = [(repo.root, ctype, name, tier, ch) for ctype in ("complex128", "complex64") for name in PROBED for ch in range(n_chunks)]
     if jobs > 1:
         with mp.get_context("fork").Pool(jobs) as pool:
             presults_async = pool.starmap_async(_analyse_plane, ptasks, chunksize=1)
+            bresults_async = pool.starmap_async(_analyse_probes, btasks, chunksize=1)
             results = pool.starmap(_analyse, tasks, chunksize=1)
             presults = presults_async.get()
+            bresults = bresults_async.get()
     else:
+        bresults = [_analyse_probes(*t) for t in btasks]
         results = [_analyse(*t) for t in tasks]
         presults = [_analyse_plane(*t) for t in ptasks]
     total = dict(boxes=0, proved=0, points=0)
@@ -566,6 +624,34 @@ def run(repo, tier):
                 r.ob("R1.3", key + f" at {lo_}", False, info, where)
         else:
             r.ob("R1.3", key, True, res["ok"], where)
+    # R1.5 boundary probes
+    agg = {}
+    for (root, ctype, name, _, ch), res in zip(btasks, bresults):
+        a = agg.setdefault((name, ctype), dict(lines=0, points=0, flips=0, worst=0.0, undecided=0, failures=[], error=None))
+        if res["error"]:
+            a["error"] = res["error"]
+            continue
+        for k in ("lines", "points", "flips", "undecided"):
+            a[k] += res[k]
+        if res["worst"] > a["worst"]:
+            a["worst"], a["worst_at"] = res["worst"], res["worst_at"]
+        a["failures"] += res["failures"]
+        for rg, (cnt, example, labels) in res["regions"].items():
+            ent = regional.setdefault((name, ctype, rg), dict(lines=[], count=0, example=example, where=f"functional_algorithms/{REL}::{name}"))
+            ent["lines"] += labels
+            ent["count"] += cnt
+    for (name, ctype), a in sorted(agg.items()):
+        where = f"functional_algorithms/{REL}::{name}"
+        if a["error"] and not a["failures"]:
+            pending_errors.append(a["error"])
+            continue
+        for label, text in a["failures"][:6]:
+            r.ob("R1.5", f"{name}[{ctype}] {label}", False, text, where)
+        if not a["failures"]:
+            decided = a["points"] - a["undecided"]
+            r.ob("R1.5", f"{name}[{ctype}] region boundaries", decided > 0 and (a["flips"] > 0 or name in ("absolute", "square")),
+                 f"{a['lines']} lines, {a['flips']} guard flips located, {decided} probe points within {P_ULP:.0f} ULP (worst {a['worst']:.2f} at {a.get('worst_at', '')})"
+                 + (f", {a['undecided']} points undecided (a library function is only enclosed there)" if a["undecided"] else ""), where)
     # failures inside a named input region are one finding per (function, type, region), whatever lines show them
     for (name, ctype, rg), ent in sorted(regional.items()):
         r.ob("R1.1", f"{name}[{ctype}] {rg}", False,
